@@ -593,6 +593,19 @@ theorem overflow_reported_buf (ctx : Ctx) (h : ctx.WF) (hne : ctx.start ≠ ctx.
   · rw [feedTrace_eq, feedTrace_eq]
     simp only [delivered_append, o2, List.append_nil]
 
+/-- a legacy struct used WITHOUT `gstuff_autorecv_setbuf_v1` (zero-initialised: state 0, crc 0, no
+buffer, capacity 0 — how a session starts): no call faults and nothing is ever stored -/
+theorem legacy_nobuf_never_faults (bs : List Byte) :
+    ∃ r', blfeed ⟨.l0, 0#8, ⟨[], 0, 0, 0⟩⟩ bs = some (r', (lfeed ⟨.l0, 0#8, [], 0⟩ bs).2) ∧
+      r'.line.len = 0 ∧ r'.line.buf = [] := by
+  have hok : SlineOK (⟨.l0, 0#8, ⟨[], 0, 0, 0⟩⟩ : BLRecv).line := ⟨rfl, by simp, by simp⟩
+  obtain ⟨r', e1, _, e3, e4, e5, _⟩ := blfeed_refines ⟨.l0, 0#8, ⟨[], 0, 0, 0⟩⟩ hok bs
+  refine ⟨r', e1, ?_, ?_⟩
+  · have := e3.bound
+    rw [e4] at this
+    exact BitVec.eq_of_toNat_eq (by simpa using this)
+  · exact List.eq_nil_of_length_eq_zero (by simpa using e5)
+
 /-! ### round 3: resynchronisation, exactly -/
 
 /-- SELF-RESYNCHRONISATION, EXACT FORM, every well-formed alphabet (start ≠ stop AND start = stop),
